@@ -10,7 +10,7 @@ CLAIMED = {
        'the quoted-key state and must give back exactly that byte; controls/quote/backslash always escaped; default number formats carry '
        '17/9 significant digits; reserve >= snprintf size >= widest text of every format used; non-finite guard; int path bounded to 9 digits; '
        'encoder type dispatch exhaustive; final flush, file sink, BOM probe outside the chunk loop. Bit-exact number recovery is not decided.',
-  technique='extraction of the encoder escape table + byte sets, run through the abstractly interpreted decoder transition function for all 255 bytes; constant/width table evaluation; CFG must-pass (final flush); tag exhaustiveness; per-byte emission table of the escaper by guard/argument evaluation (emit.py); a corpus of JSON/XDL documents driven through the interpreted decoder machine (accepting run)',
+  technique='extraction of the encoder escape table + byte sets, run through the abstractly interpreted decoder transition function for all 255 bytes; constant/width table evaluation; CFG must-pass (final flush); tag exhaustiveness; per-byte emission table of the escaper by guard/argument evaluation (emit.py); a corpus of JSON/XDL documents driven through the interpreted decoder machine (accepting run); chunk rule of the parser (C06.chunks) and raw-key-append rule of the encoder',
   ref='DESIGN.md section 3 C05'),
  'C07': dict(
   text='Abstract interpretation of the Xml::decode loop over every reachable (state, last state, open-element stack) and byte class: no '
@@ -18,7 +18,7 @@ CLAIMED = {
        'input, e.g. "</>" on the original tree); state-dispatch exhaustiveness; children attached only through the parent-linking operator; '
        'the encoder escapes every byte the decoder treats specially in text and double-quoted attribute values and the decoder\'s entity table '
        'inverts the names written; scratch buffer of character references holds the longest sequence. Tree equality after a round trip is not decided.',
-  technique='abstract interpretation of the decoder transition function (worklist fixpoint), exhaustiveness and single-writer queries, escape/entity table agreement over the resolved AST; per-byte emission table of the escaper by guard/argument evaluation (emit.py); a corpus of XML documents through the interpreted decoder machine with an open/text/close event log; literal-read bound rule (R-LITREAD) with a self-test fixture',
+  technique='abstract interpretation of the decoder transition function (worklist fixpoint), exhaustiveness and single-writer queries, escape/entity table agreement over the resolved AST; per-byte emission table of the escaper by guard/argument evaluation (emit.py); a corpus of XML documents through the interpreted decoder machine with an open/text/close event log; literal-read bound rule (R-LITREAD) with a self-test fixture; counting loops over followed texts executed concretely; encoder's longest output from its interpreted body',
   ref='DESIGN.md section 3 C07'),
  'C06': dict(
   text='Abstract interpretation of the JSON/XDL parser loop over every reachable abstract configuration (state, previous state, comment flag, '
@@ -27,7 +27,7 @@ CLAIMED = {
        'escape completes, push-back terminates; plus state-dispatch exhaustiveness, the acceptance condition of value()/decode(), and the '
        'structural chunk-independence conditions (no look-ahead through the cursor, no per-call state). Reports carry a witness input. '
        'Agreement with an independent JSON parser is not decided.',
-  technique='abstract interpretation of the parser transition function (worklist fixpoint over finite abstract configurations x byte classes), exhaustiveness and dominance queries on the resolved AST; guard evaluation of value() over all (state, context) pairs and of the integer-conversion sites over literal lengths; a corpus of 35 documents through the machine: accepting run and rejection of every proper prefix (depth <= K)',
+  technique='abstract interpretation of the parser transition function (worklist fixpoint over finite abstract configurations x byte classes), exhaustiveness and dominance queries on the resolved AST; guard evaluation of value() over all (state, context) pairs and of the integer-conversion sites over literal lengths; a corpus of 35 documents through the machine: accepting run and rejection of every proper prefix (depth <= K); parser freshness of the decode entry points (C06.fresh), value constructors by the C04 rules, cursor used by the byte loop only',
   ref='DESIGN.md section 2 R-AUTOMATON, section 3 C06'),
  'C09': dict(
   text='Static decision of the structural clauses of HTTP request parsing: on every path through HttpRequest::read the path is percent-decoded '
@@ -35,7 +35,7 @@ CLAIMED = {
        'server uses only request.path(), every constant index into a split() result is dominated by a length test (evaluated for all shorter '
        'lengths), query cut only before the fragment, look-ahead guards of Url::decode/Url::Url, line cap and EOF exits of the readers, '
        'case-insensitive header keying and value extraction. Totality/promptness on all streams and body framing are not decided.',
-  technique='CFG typestate dataflow (decode-then-sanitise ordering), single-writer query, dominating-guard implication checks evaluated over the finite index range, structural loop-exit queries; bounded guard evaluation of the look-ahead indices over (index, length) grids; writes-of-the-search-position rule for replace; interpretation of the line reader against scripted peers; query-string split model by interpretation (scansim); R-LITREAD',
+  technique='CFG typestate dataflow (decode-then-sanitise ordering), single-writer query, dominating-guard implication checks evaluated over the finite index range, structural loop-exit queries; bounded guard evaluation of the look-ahead indices over (index, length) grids; writes-of-the-search-position rule for replace; interpretation of the line reader against scripted peers; query-string split model by interpretation (scansim); R-LITREAD; partial-transfer scripts of the blocking read (C09.partial), no second decode of the sanitised path, C08.casebytes for header values',
   ref='DESIGN.md section 3 C09'),
  'C11': dict(
   text='Static decision of the structural clauses of WebSocket framing: the 64-bit wire length reaches int only through a dominating range '
@@ -43,7 +43,7 @@ CLAIMED = {
        'network byte order), opcode coverage, message completion only on FIN data frames or close, per-frame payload buffer, 4 bytes of slack '
        'before word-wise unmasking, accept-key derivation with the RFC GUID, _clients under its mutex. '
        'Byte-identical in-order delivery for all sizes is not decided.',
-  technique='dominating-guard (range check) queries, expression evaluation of header-form conditions at boundary values and over the opcode domain, constant/protocol table agreement over the resolved AST; header fields emitted for 13 lengths x both roles by guard/argument evaluation; opcode and (FIN, opcode) domains enumerated through the guards; unmask slack by evaluating grow/shrink/trip count per length; partial-transfer loops by a linear progress invariant; arrival-script interpretation of the liveness/receive path, send-state effect rule, payload index through pointers, frame-kept rule by fresh-query calls + dominators',
+  technique='dominating-guard (range check) queries, expression evaluation of header-form conditions at boundary values and over the opcode domain, constant/protocol table agreement over the resolved AST; header fields emitted for 13 lengths x both roles by guard/argument evaluation; opcode and (FIN, opcode) domains enumerated through the guards; unmask slack by evaluating grow/shrink/trip count per length; partial-transfer loops by a linear progress invariant; arrival-script interpretation of the liveness/receive path, send-state effect rule, payload index through pointers, frame-kept rule by fresh-query calls + dominators; per-iteration definite assignment of frame variables and reaching definitions at the length-form tests (C11.framevars)',
   ref='DESIGN.md section 3 C11'),
  'C14': dict(
   text='Static decision of the accept/serve/stop protocol shape: per accepted socket exactly one hand-over (inline serve or one handler thread) '
@@ -51,7 +51,7 @@ CLAIMED = {
        'with the decrement as last access to the server, _running cleared only under the observed stop request while leaving the loop, stop(true) '
        'waits on loop and counter, Thread objects deleted only after join, no self-delete in run() (recorded known finding for the handler thread), '
        'Socket_::close invalidates the handle. OS scheduling behaviour is not decided.',
-  technique='CFG typestate dataflow (event-sequence per accepted socket, must-precede, join-before-delete), guard queries; positive-control fixture for the zero-expected rules; stop(): CFG typestate (no wait/accept after clearing the flag, every exit clears it) and branch evaluation of the wait loop for every (running, clients); accept receiver/guard must consult the list waitInput() filled; listener list rebuilt fresh per wait (C14.fresh)',
+  technique='CFG typestate dataflow (event-sequence per accepted socket, must-precede, join-before-delete), guard queries; positive-control fixture for the zero-expected rules; stop(): CFG typestate (no wait/accept after clearing the flag, every exit clears it) and branch evaluation of the wait loop for every (running, clients); accept receiver/guard must consult the list waitInput() filled; listener list rebuilt fresh per wait (C14.fresh); sibling-constructor initialisation agreement (R-CTORINIT), stop request not taken back, select() range evaluated for descriptor sequences (C14.nfds), receive loops stop at end of stream',
   ref='DESIGN.md section 3 C14'),
  'C13': dict(
   text='Static decision of the hand-over protocol shape behind run-exactly-once / join / finished(): trampolines order context copy, ready, '
@@ -59,7 +59,7 @@ CLAIMED = {
        'finished flag after the OS thread exists (call-graph closure over copy/assign); parallel_for/parallel_invoke join everything they start; '
        'the worker count is evaluated over a grid (1 <= n <= min(threads, length)) and the partition fields/loop have the strided form; '
        'Semaphore/Condition are exact thin wrappers. Visibility under all schedules is not decided.',
-  technique='CFG typestate dataflow for ordering/must-precede/join pairing with call-graph closure; expression evaluation of the worker-count formula over a finite grid; structural data-flow identities; counted-loop normal form + trip counts; 3-valued evaluation of wrapper return trees; early-return coverage over the (i0, length, threads) grid; ready-signal classification (plain store / atomic / unknown) with helper resolution (C13.handover), context owner rule, signal-must-wake rule, native-handle initialisation',
+  technique='CFG typestate dataflow for ordering/must-precede/join pairing with call-graph closure; expression evaluation of the worker-count formula over a finite grid; structural data-flow identities; counted-loop normal form + trip counts; 3-valued evaluation of wrapper return trees; early-return coverage over the (i0, length, threads) grid; ready-signal classification (plain store / atomic / unknown) with helper resolution (C13.handover), context owner rule, signal-must-wake rule, native-handle initialisation; every start() creates a thread (C13.start), timed-wait deadline interpreted on a (clock, timeout) grid (C13.deadline), hand-over record members by value, use() records the mutex on every path',
   ref='DESIGN.md section 3 C13'),
  'C15': dict(
   text='Static decision of the structural clauses of the codec property: Base64 alphabet/inverse-table agreement on all 64 symbols and 6-bit '
@@ -67,7 +67,7 @@ CLAIMED = {
        'escape form inverted by the decoder), look-ahead of Url::decode dominated by its length guard, block-loop bounds of encodeBase64 / '
        'decodeHex / SHA1::update consuming exactly the full blocks, decodeBase64 bounded by the given length, padding counted across '
        'whitespace (byte-set of the scan condition), non-negative result length. SHA-1 = FIPS 180-4 on all messages is not decided.',
-  technique='constant table evaluation, exact byte-set evaluation of guards (powerset-of-bytes domain), loop stride/bound agreement and dominating-guard queries over the resolved AST; bit provenance of Base64 group assembly; block-loop condition <=> offset+B<=length on a grid; SHA-1 block bookkeeping by interpretation of update()/end() with a recording transform() for every length; Url::encode emission table in both modes; SHA-1 padding for long message counts; query split model by interpretation',
+  technique='constant table evaluation, exact byte-set evaluation of guards (powerset-of-bytes domain), loop stride/bound agreement and dominating-guard queries over the resolved AST; bit provenance of Base64 group assembly; block-loop condition <=> offset+B<=length on a grid; SHA-1 block bookkeeping by interpretation of update()/end() with a recording transform() for every length; Url::encode emission table in both modes; SHA-1 padding for long message counts; query split model by interpretation; inverse mapping found as table or helper by evaluation, join() interpreted for the empty dictionary',
   ref='DESIGN.md section 3 C15'),
  'C08': dict(
   text='Static decision of the structural clauses of UTF conversion safety and standard form: NUL-guarded cursor advance in every converter '
@@ -76,7 +76,7 @@ CLAIMED = {
        'surrogate constants), fixed output buffers hold the maximal output plus NUL, case tables cover every admitted index, keep ASCII in one '
        'byte, never grow, agree at the cut-over, and case-insensitive comparison does not shortcut on byte length. '
        'Exhaustive losslessness over all scalar values is not re-proved.',
-  technique='typestate dataflow over CFGs (NUL-guarded scan), abstract interpretation in a bit-provenance domain (encoder/decoder layouts vs RFC 3629), constant table evaluation; R-SCAN by exhaustive interpretation over abstract strings of byte-class representatives (scansim); region-wise bit provenance (regions found by evaluating guards per representative code / lead byte); converter count-safety by interpretation + call-site termination rule; count()/case-insensitive compare/upper-lower conversion interpreted over abstract strings incl. result-length audit; heap destination capacity by evaluation',
+  technique='typestate dataflow over CFGs (NUL-guarded scan), abstract interpretation in a bit-provenance domain (encoder/decoder layouts vs RFC 3629), constant table evaluation; R-SCAN by exhaustive interpretation over abstract strings of byte-class representatives (scansim); region-wise bit provenance (regions found by evaluating guards per representative code / lead byte); converter count-safety by interpretation + call-site termination rule; count()/case-insensitive compare/upper-lower conversion interpreted over abstract strings incl. result-length audit; heap destination capacity by evaluation; case mappings interpreted on ill-formed byte strings over the boundary alphabet (C08.casebytes)',
   ref='DESIGN.md section 3 C08'),
  'C03': dict(
   text='Static decision of the structural clauses behind String memory safety and integer conversion identity: no `const char*`/`const String&` '
@@ -85,7 +85,7 @@ CLAIMED = {
        'the widest text of the values admitted on each branch (interval arithmetic over the threshold constants, printf width table), the '
        'integer-to-text helpers exclude the minimum value before negating, vsnprintf retry loops treat n == size as truncated. '
        'Agreement with a byte-string model for search/replace/split is not decided.',
-  technique='alias-after-invalidate typestate dataflow with call-graph summaries; constant/interval evaluation of capacity thresholds against a printf width table; dominating-guard checks; guard evaluation over the extreme values for signed negations; whole-body interpretation (scansim) of numeric constructors against a capacity table, number formatting/parse-back, split/split-to-Dic, trim over a small alphabet, va_list reuse rule, R-LITREAD',
+  technique='alias-after-invalidate typestate dataflow with call-graph summaries; constant/interval evaluation of capacity thresholds against a printf width table; dominating-guard checks; guard evaluation over the extreme values for signed negations; whole-body interpretation (scansim) of numeric constructors against a capacity table, number formatting/parse-back, split/split-to-Dic, trim over a small alphabet, va_list reuse rule, R-LITREAD; search members against find/rfind with stale bytes behind the terminator (C03.find)',
   ref='DESIGN.md section 3 C03'),
  'C04': dict(
   text='Static decision of the structural clauses behind Var copy/assign/clone safety: tag dispatch of copy/free/operator=/clone covers exactly the '
@@ -93,7 +93,7 @@ CLAIMED = {
        'argument (possibly an element/property of *this) is used after *this released or modified its containers (with summaries of the '
        'Array<Var>/Dic<Var> members it forwards to), clone() detaches before deep-cloning children, copies into the inline string buffer are '
        'length-guarded. Value fidelity of accessors and numeric equality are not decided.',
-  technique='exhaustive tag-dispatch agreement over the resolved AST, alias-after-invalidate typestate dataflow with interprocedural summaries, dominating-guard bound check; guard evaluation over small grids with path-sensitive CFG confirmation (inline buffer), conversion-chain range check over a grid of stored doubles, handle-copy query for the string buffer; string-representation writers by (partial) interpretation of every writer of the tag/inline buffer/heap pointer (C04.strrep), container-handle rule (C04.handles), numeric equality model',
+  technique='exhaustive tag-dispatch agreement over the resolved AST, alias-after-invalidate typestate dataflow with interprocedural summaries, dominating-guard bound check; guard evaluation over small grids with path-sensitive CFG confirmation (inline buffer), conversion-chain range check over a grid of stored doubles, handle-copy query for the string buffer; string-representation writers by (partial) interpretation of every writer of the tag/inline buffer/heap pointer (C04.strrep), container-handle rule (C04.handles), numeric equality model; range guards of removeAt on a grid (C04.range), toString() interpreted for numeric extremes (C04.tostring)',
   ref='DESIGN.md section 3 C04'),
  'C02': dict(
   text='Static decision of the structural clauses of the finite-map property on every instantiated member of HashMap/HashDic/Set/Map: chain '
@@ -101,7 +101,7 @@ CLAIMED = {
        '2^k+SKIP with binOf/rehash mask agreement, rehash re-links every node and restores the count, no bucket index or chain pointer survives a '
        'table replacement, HashMap handle refcount protocol, Map inserts at the decoded indexOf position, comparators do not subtract integers, Set is thin. '
        'Correctness of the hand-written binary search is not decided.',
-  technique='CFG typestate dataflow (unlink/re-link, stale table-derived values), constant evaluation of table geometry, guard/dominance queries over instantiated templates; evaluation of the bucket-enumerator range against the array length; chain-removal and rehash models by interpretation of the instantiated members (int keys), R-ALIAS for Map',
+  technique='CFG typestate dataflow (unlink/re-link, stale table-derived values), constant evaluation of table geometry, guard/dominance queries over instantiated templates; evaluation of the bucket-enumerator range against the array length; chain-removal and rehash models by interpretation of the instantiated members (int keys), R-ALIAS for Map; dup() as re-insertion or checked chain copy (C02.dup), size shortcuts of the set predicates on a size grid (C02.sizecut), copy-and-swap assignment modelled in R-RC',
   ref='DESIGN.md section 3 C02'),
  'C01': dict(
   text='Static decision, on every instantiated member of Array/Stack/Queue for int, String, Var and nested-array elements, of the structural '
@@ -109,14 +109,14 @@ CLAIMED = {
        'released or moved (R-ALIAS, with interprocedural summaries), no re-read of an argument array\'s live length after a self-resize (R-SELFARG), '
        'no element reference held across element writes (R-ELEMREF), the reference-count protocol of the handle (R-RC a-f), construct/destroy '
        'pairing with every count change on all CFG paths, Stack/Queue thinness. Sequence-model equality over histories is not decided.',
-  technique='typestate dataflow over CFGs of clang-instantiated template members (alias-after-invalidate, refcount protocol, element lifetime pairing) with call-graph fixpoint summaries; R-CAP allocation/capacity typestate with stable branch facts; linear forms with opaque atoms for tail moves; element-pointer arguments (append/copy of a pointer into the array itself), handle re-bind rule (C01.rebind)',
+  technique='typestate dataflow over CFGs of clang-instantiated template members (alias-after-invalidate, refcount protocol, element lifetime pairing) with call-graph fixpoint summaries; R-CAP allocation/capacity typestate with stable branch facts; linear forms with opaque atoms for tail moves; element-pointer arguments (append/copy of a pointer into the array itself), handle re-bind rule (C01.rebind); reallocation only when the element does not fit (C01.fits, guards on a grid)',
   ref='DESIGN.md section 3 C01'),
  'C16': dict(
   text='Static decision of the structural clauses of the canonical-bytes property for every instantiated stream operator: '
        'byte counts of raw transfers carry the element size (R-UNITS), every scalar operator moves exactly sizeof(T) bytes and swaps '
        'iff the re-read byte-order member equals the non-native order, both branches of array writers emit length*sizeof(T), '
        'StreamBufferReader byte/shift tables, swapBytes reversal. Value identity per bit pattern is not decided.',
-  technique='custom AST checker over clang-resolved template instantiations (units rule, sibling agreement, constant byte/shift table evaluation); byte-provenance interpretation of the reader (byteprov), cell-level interpretation of swapBytes and swap-free writers (cellsim), bit provenance with a mixed-bit marker for arithmetic swaps, per-byte-order guard evaluation of swap/array paths, linear progress invariant of the partial-transfer loops; read-n / file-read / raw-scalar transfer rules, array writers interpreted with token elements',
+  technique='custom AST checker over clang-resolved template instantiations (units rule, sibling agreement, constant byte/shift table evaluation); byte-provenance interpretation of the reader (byteprov), cell-level interpretation of swapBytes and swap-free writers (cellsim), bit provenance with a mixed-bit marker for arithmetic swaps, per-byte-order guard evaluation of swap/array paths, linear progress invariant of the partial-transfer loops; read-n / file-read / raw-scalar transfer rules, array writers interpreted with token elements; byte-order members initialised by every constructor and refreshed by setEndian() (C16.order), R-ALIAS for StreamBuffer, sending independent of a stale receive error',
   ref='DESIGN.md section 3 C16'),
 
  'C12': dict(
@@ -125,7 +125,7 @@ CLAIMED = {
        'returned value, one acquire/one release per path, acquire before release, fresh count 1, relocation only when unique, Lock scope '
        'encloses every access. These are the necessary conditions of the standard protocol argument for all interleavings; the interleavings '
        'themselves are not enumerated.',
-  technique='typestate dataflow over per-function CFGs with same-family callee inlining (reference-count protocol), lock-scope enclosure check, LLVM-IR cross-check of the atomic primitive (thorough)',
+  technique='typestate dataflow over per-function CFGs with same-family callee inlining (reference-count protocol), lock-scope enclosure check, LLVM-IR cross-check of the atomic primitive (thorough); release-before-acquire without the identity-guard excuse, copy-and-swap and exchange helpers modelled, AtomicCount operators interpreted against recorder primitives',
   ref='DESIGN.md section 2 R-RC/R-LOCK, section 3 C12'),
 }
 
